@@ -203,6 +203,9 @@ def check_config(config: dict) -> None:
         "lambda_minus_one", False
     )
 
+    if n_ens < 2:
+        raise TOMLConfigError("Define at least 2 interfaces!")
+
     if lambda_minus_one is not False and lambda_minus_one >= intf[0]:
         raise TOMLConfigError(
             "lambda_minus_one interface must be less than the first interface!"
@@ -210,9 +213,6 @@ def check_config(config: dict) -> None:
 
     if quantis and lambda_minus_one:
         raise TOMLConfigError("Cannot run quantis with lambda_minus_one!")
-
-    if n_ens < 2:
-        raise TOMLConfigError("Define at least 2 interfaces!")
 
     if n_workers > n_ens - 1:
         raise TOMLConfigError("Too many workers defined!")
@@ -228,14 +228,23 @@ def check_config(config: dict) -> None:
             f"N_interfaces {n_ens} > N_shooting_moves {n_sh_moves}!"
         )
 
-    if intf_cap and intf_cap > intf[-1]:
+    # a cap of 0.0 is a cap: test against False, not truthiness
+    if intf_cap is not False and intf_cap > intf[-1]:
         raise TOMLConfigError(
             f"Interface_cap {intf_cap} > interface[-1]={intf[-1]}"
         )
-    if intf_cap and intf_cap < intf[0]:
+    if intf_cap is not False and intf_cap < intf[0]:
         raise TOMLConfigError(
-            f"Interface_cap {intf_cap} < interface[-2]={intf[-2]}"
+            f"Interface_cap {intf_cap} < interface[0]={intf[0]}"
         )
+    if intf_cap is not False:
+        # ensemble [i+] samples [interface[i], cap) when its move is 'wf'
+        for i, move in enumerate(sh_moves[1:n_ens]):
+            if move == "wf" and intf_cap <= intf[i]:
+                raise TOMLConfigError(
+                    f"Interface_cap {intf_cap} <= interface[{i}]={intf[i]}"
+                    + " leaves a 'wf' ensemble no room!"
+                )
 
     # engine checks
     unique_engines = []
